@@ -304,7 +304,7 @@ fn enumerate(rep: &mut Report, n: usize) {
 pub fn plan(tier: Tier) -> Plan {
     let n = tier.pick(4, 5);
     Plan {
-        campaigns: vec![Box::new(Pairs)],
+        campaigns: vec![Box::new(crate::fuzzdec::FuzzReplay("fuzz_topic", "topic")), Box::new(Pairs)],
         enumerators: vec![Box::new(move |rep| enumerate(rep, n))],
         rule: "Cases are (topic, filter) string pairs: every pair of strings up to a length bound over {a,b,/,+,#,$,é,😀} is enumerated exactly once (so enumerated cases are distinct by construction), plus random pairs built level-wise (literal, empty, '+', '#', malformed levels; half of the filters derived from the topic so matches are frequent). A pair is non-trivial when the filter contains a wildcard, or the topic starts with '$' or with a multi-byte character; random pairs are counted distinct by hash.".into(),
         assumptions: vec![
